@@ -86,18 +86,24 @@ CHECKS["C28"] = dict(
                "the final drain are judged by RouteDiscoveryTrace.tla",
     level_note="trusted: TLC; the harness streamer (queues every written message, plays no node), forcing of the neighbour choice "
                "through peer reachability, a per-node instance of the package-global find-route cache (hook) so that several nodes "
-               "can share a process; underlay signatures are real. Not modelled: partial pending expiry, the route search a relay "
-               "starts when it has no next hop, onRelay (needs the libp2p service), light nodes, disconnects during a search",
+               "can share a process; underlay signatures are real. A relay that finds no stored hop off its path searches (FindRoute) and resumes "
+               "with the discovered hops, still skipping its path; neighbour links go down / come up between discovery and relay "
+               "(only while nothing is in flight). Not modelled: partial pending expiry, onRelay (needs the libp2p service), light "
+               "nodes, link changes during a search",
     design=[dict(spec="MCRouteDiscovery.tla", cfg="MCRouteDiscovery.cfg", workers=8, timeout=900),
+            dict(spec="MCRouteDiscovery.tla", cfg="MCRouteDiscovery_relayfind.cfg", workers=8, timeout=900),
+            dict(spec="MCRouteDiscovery.tla", cfg="MCRouteDiscovery_links.cfg", workers=8, timeout=1200, thorough_only=True),
             dict(spec="MCRouteDiscovery.tla", cfg="MCRouteDiscovery_inject.cfg", workers=8, timeout=1200, thorough_only=True),
             dict(spec="MCRouteDiscovery.tla", cfg="MCRouteDiscovery_2finds.cfg", workers=8, timeout=1200, thorough_only=True),
             dict(spec="MCRouteDiscovery.tla", cfg="MCRouteDiscovery_all4.cfg", workers=8, timeout=1500, thorough_only=True),
             dict(spec="MCRouteDiscovery.tla", cfg="MCRouteDiscovery_n5.cfg", workers=8, timeout=1200, thorough_only=True)],
     gen=dict(
-        quick=[dict(mode="edges", spec=_GEN, cfg="RouteDiscoveryGenEdges.cfg", depth=30, max=60, name="edges-small4"),
+        quick=[dict(mode="edges", spec=_GEN, cfg="RouteDiscoveryGenRelay.cfg", depth=40, name="relay-search-after-link-change"),
+               dict(mode="edges", spec=_GEN, cfg="RouteDiscoveryGenEdges.cfg", depth=30, max=60, name="edges-small4"),
                dict(mode="sim", spec=_GEN, cfg="RouteDiscoveryGenSim.cfg", depth=40, num=40, max=50, dedup=True, name="walks-iso4"),
                dict(mode="sim", spec=_GEN, cfg="RouteDiscoveryGenSimT2.cfg", depth=40, num=15, max=20, dedup=True, salt=4, name="walks-ttl2")],   # 5-node walks: thorough tier
-        thorough=[dict(mode="edges", spec=_GEN, cfg="RouteDiscoveryGenEdges.cfg", depth=30, name="edges-small4"),
+        thorough=[dict(mode="edges", spec=_GEN, cfg="RouteDiscoveryGenRelay.cfg", depth=40, name="relay-search-after-link-change"),
+                  dict(mode="edges", spec=_GEN, cfg="RouteDiscoveryGenEdges.cfg", depth=30, name="edges-small4"),
                   dict(mode="edges", spec=_GEN, cfg="RouteDiscoveryGenEdgesA1.cfg", depth=30, max=500, name="edges-iso4-a1", timeout=1200),
                   dict(mode="sim", spec=_GEN, cfg="RouteDiscoveryGenSim.cfg", depth=40, num=300, max=350, dedup=True, name="walks-iso4"),
                   dict(mode="sim", spec=_GEN, cfg="RouteDiscoveryGenSimA1.cfg", depth=50, num=150, max=170, dedup=True, salt=2, name="walks-all4-a1"),
@@ -111,7 +117,7 @@ CHECKS["C28"] = dict(
          "(configuration, step sequence); non-trivial = at least one FindRoute and two deliveries",
     exhaustive=dict(quick=False, thorough=False),
     assumptions=["honest nodes: every message in flight was produced by a real routetab.Service (relayed streams enter with an honest one- or two-hop path)",
-                 "the neighbour relation does not change during a scenario",
+                 "the neighbour relation changes only while no message is in flight; recorded paths are judged against every link that existed during the scenario",
                  "kademlia's neighbourhood depth is 0 in these small networks (logged per scenario)",
                  "the bound on messages is MsgBound = finds * sum_{k=1..TTL+1} alpha^k * (2+alpha) + injects * |nodes|"],
     driver_timeout=1500,
@@ -168,17 +174,20 @@ CHECKS["C38"] = dict(
                "accessor of the three lists; per-node cache instances selected through the hook (production: one process per node); "
                "window expiry is bound to clearing the node's cache (the one-minute constant is not waited for). Not modelled: "
                "forwarding through other groups when a node does not hold the group (getForwardNodes), discovery (findGroup), gcGroup",
-    design=[dict(spec="MCMulticast.tla", cfg="MCMulticastMember.cfg", workers=8, timeout=900),
+    design=[dict(spec="MCMulticast.tla", cfg="MCMulticastMemberQ.cfg", workers=8, timeout=900),
             dict(spec="MCMulticast.tla", cfg="MCMulticastFlood.cfg", workers=8, timeout=900),
+            dict(spec="MCMulticast.tla", cfg="MCMulticastMember.cfg", workers=8, timeout=1200, thorough_only=True),
             dict(spec="MCMulticast.tla", cfg="MCMulticastMember3.cfg", workers=8, timeout=1200, thorough_only=True),
             dict(spec="MCMulticast.tla", cfg="MCMulticastFlood3.cfg", workers=8, timeout=1200, thorough_only=True)],
     gen=dict(
-        quick=[dict(mode="edges", spec=_MG, cfg="MulticastGenMemberEdges1.cfg", depth=4, max=350, name="member-edges-1group"),
+        quick=[dict(mode="edges", spec=_MG, cfg="MulticastGenMemberEdges0.cfg", depth=8, name="member-edges-1peer-1group"),
+               dict(mode="edges", spec=_MG, cfg="MulticastGenMemberEdges1.cfg", depth=4, max=250, name="member-edges-1group"),
                dict(mode="sim", spec=_MG, cfg="MulticastGenMemberSim.cfg", depth=12, num=8, max=60, name="member-walks"),
                dict(mode="sim", spec=_MG, cfg="MulticastGenFill.cfg", depth=8, num=4, max=25, salt=1, name="member-fill"),
                dict(mode="edges", spec=_MG, cfg="MulticastGenFloodEdges.cfg", depth=7, max=80, name="flood-edges"),
                dict(mode="sim", spec=_MG, cfg="MulticastGenFloodSim.cfg", depth=40, num=60, max=60, dedup=True, salt=2, name="flood-walks")],
-        thorough=[dict(mode="edges", spec=_MG, cfg="MulticastGenMemberEdges1.cfg", depth=8, name="member-edges-1group", timeout=1200),
+        thorough=[dict(mode="edges", spec=_MG, cfg="MulticastGenMemberEdges0.cfg", depth=8, name="member-edges-1peer-1group"),
+                  dict(mode="edges", spec=_MG, cfg="MulticastGenMemberEdges1.cfg", depth=6, max=3000, name="member-edges-1group", timeout=1200),
                   dict(mode="edges", spec=_MG, cfg="MulticastGenMemberEdges.cfg", depth=3, max=500, name="member-edges", timeout=1200),
                   dict(mode="sim", spec=_MG, cfg="MulticastGenMemberSim.cfg", depth=20, num=20, max=400, name="member-walks"),
                   dict(mode="sim", spec=_MG, cfg="MulticastGenFill.cfg", depth=12, num=15, max=150, salt=1, name="member-fill"),
@@ -187,14 +196,14 @@ CHECKS["C38"] = dict(
     post_gen=_c38_post,
     judge=dict(spec="MulticastTrace.tla", cfg="MulticastTrace.cfg"),
     corrupt=_c38_corrupt,
-    nontrivial=lambda s: (s.get("par", {}).get("kind") == "member" and sum(1 for o in s["ops"] if o["op"] in ("notify", "handshake", "add", "remove", "disconnect", "fill")) >= 2)
+    nontrivial=lambda s: (s.get("par", {}).get("kind") == "member" and sum(1 for o in s["ops"] if o["op"] in ("notify", "handshake", "add", "remove", "nbrdown", "event", "fill")) >= 2)
                          or (s.get("par", {}).get("kind") == "flood" and any(o["op"] == "deliver" for o in s["ops"])),
-    rule="membership: TLC histories of connect/disconnect/notify/handshake(in,out)/add/remove/prune/fill (every (state, step) edge of 2 peers x 1 group (thorough: complete), edges over 2 peers x 2 groups, "
+    rule="membership: TLC histories of connect/nbrdown/event/notify/handshake(in,out)/add/remove/prune/fill (every (source state, step) edge of 1 peer x 1 group, sampled edges of 2 peers x 1 group, edges over 2 peers x 2 groups, "
          "walks over 3 peers x 2 groups, fills around the threshold 20); flooding: TLC behaviours (overlay, joined set, originations, "
          "delivery order, losses, window expiries) ending with an empty network; distinct = distinct (parameters, step sequence); "
          "non-trivial = two membership-changing steps, resp. at least one delivery",
     exhaustive=dict(quick=False, thorough=False),
-    assumptions=["a disconnect is observed after the service has handled the peer-state event (events are handled in order; the driver waits for it)",
+    assumptions=["a neighbour going away is two steps: the route table stops listing it (nbrdown), later the service handles the queued peer-state event (event); 'connected peers are neighbours' is judged up to queued events",
                  "window expiry = the node's de-duplication cache is emptied",
                  "every node of a flooding scenario holds the group (joined or observing)"],
     driver_timeout=1500,
